@@ -334,6 +334,35 @@ def run(repo: Repo, chk: Check) -> None:
            what=f'unforge_int: encodings of {[n for n in lengths if n >= 2 and n - 1 not in rejected_at] or lengths} bytes whose last 7-bit group is zero are not rejected '
                 f'(rejecting paths exist for a zero byte at index {rejected_at}): non-minimal encodings such as 00 80 00 decode (as 0)')
 
+    # truncated integers: an integer ends at the first byte WITHOUT the continuation bit; a path that returns (value, n) must have seen that
+    # bit clear in byte n-1 (if the scan can stop for any other reason - the end of the buffer - a truncated integer is decoded from what is there)
+    def cont_bit(c):
+        """(index, term is `bit set`) for a path condition testing the continuation bit 0x80 of data[index]"""
+        if not (isinstance(c, App) and c.op in ('!=', '==') and len(c.args) == 2 and 0 in c.args):
+            return None
+        other = c.args[0] if c.args[1] == 0 else c.args[1]
+        if isinstance(other, App) and other.op == 'op:BitAnd' and 128 in other.args:
+            g = other.args[0] if other.args[1] == 128 else other.args[1]
+            if isinstance(g, App) and g.op == 'getitem' and isinstance(g.args[0], Sym) and g.args[0].name == 'data' and isinstance(g.args[1], int):
+                return g.args[1], c.op == '!='
+        return None
+
+    unterminated = []
+    for p in res:
+        if p.outcome == 'return' and not p.truncated and isinstance(p.value, tuple) and isinstance(p.value[1], int):
+            n = p.value[1]
+            seen_clear = False
+            for c, b in p.conds:
+                cb = cont_bit(c)
+                if cb is not None and cb[0] == n - 1 and (cb[1] != b):  # (`bit set` is False) or (`bit clear` is True)
+                    seen_clear = True
+            if not seen_clear:
+                unterminated.append({'length': n, 'under': p.cond_repr()[:160]})
+    chk.ob('R-PATH', f'{FORGE}.unforge_int', bool(lengths) and not unterminated, 'an integer is only returned once a byte without continuation bit was read', ui.loc,
+           {'returning_paths_without_terminator': unterminated[:3]},
+           what=f'unforge_int returns a value although the last byte it read still has the continuation bit ({unterminated[:1]}): a truncated integer '
+                '(00 80, 00 ad ff ...) is decoded from the bytes that happen to be there instead of being rejected')
+
     # ---- 4 len_bytes pairing -----------------------------------------------------------------------------------
     chk.set_clause('C05.4')
     for fi in (fm, um):
